@@ -51,6 +51,12 @@ def compare(expected, got, mode="value"):
     return f"{int((~ok).sum())}/{e.size} elements differ; first at {i}: numpy {e[i]!r} cubed {g[i]!r}"
 
 
+def _factor_tol(*factors):
+    """Absolute tolerance for reconstruction checks, scaled to the precision the factors are stored in."""
+    single = any(np.asarray(f).dtype in (np.float32, np.complex64) for f in factors)
+    return 5e-4 if single else 1e-8
+
+
 def compare_qr(a, q, r):
     a = np.asarray(a, dtype=np.float64)
     q = np.asarray(q)
@@ -59,11 +65,12 @@ def compare_qr(a, q, r):
     if q.shape != (a.shape[0], k) or r.shape != (k, a.shape[1]):
         return f"qr shapes: A {a.shape} Q {q.shape} R {r.shape}"
     scale = max(1.0, float(np.abs(a).max()) if a.size else 1.0)
-    if not np.allclose(q @ r, a, atol=1e-8 * scale):
+    tol = _factor_tol(q, r)
+    if not np.allclose(q @ r, a, atol=tol * scale):
         return "Q @ R != A"
-    if not np.allclose(q.T @ q, np.eye(k), atol=1e-8):
+    if not np.allclose(q.T @ q, np.eye(k), atol=tol):
         return "Q not orthonormal"
-    if not np.allclose(r, np.triu(r), atol=1e-8 * scale):
+    if not np.allclose(r, np.triu(r), atol=tol * scale):
         return "R not upper triangular"
     return None
 
@@ -76,9 +83,10 @@ def compare_svd(a, u, s, vh):
         rec = (u * s) @ vh
     except ValueError as e:
         return f"svd shapes: {u.shape} {s.shape} {vh.shape}: {e}"
-    if rec.shape != a.shape or not np.allclose(rec, a, atol=1e-7 * scale):
+    tol = max(1e-7, _factor_tol(u, s, vh))
+    if rec.shape != a.shape or not np.allclose(rec, a, atol=tol * scale):
         return "U S Vh != A"
     es = np.linalg.svd(a, compute_uv=False)
-    if s.shape != es.shape or not np.allclose(s, es, atol=1e-7 * scale):
+    if s.shape != es.shape or not np.allclose(s, es, atol=tol * scale):
         return "singular values differ"
     return None
